@@ -1812,7 +1812,7 @@ def generate(repo, defines=(), ns="Sha256", suffix="", want_body=False):
     out.append(f"end Nstd.Generated.{ns}\n")
     if want_body:
         body = ("-- GENERATED by tools/gen_sha.py from src/Crypto/Sha256.cpp (g++ -E -dD -fdirectives-only): the bodies of\n"
-                "-- Sha256::Private::WriteByteBlock, Sha256::update, Sha256::finalize.  Do not edit.\n"
+                "-- Sha256::reset, Sha256::Private::WriteByteBlock, Sha256::update, Sha256::finalize and (Sha256.hpp) Sha256::hash, Sha256::hmac.  Do not edit.\n"
                 "import Nstd.Sha.Model\nset_option linter.unusedVariables false\n"
                 f"namespace Nstd.Generated.{ns}Body\nopen Nstd.Generated.{ns} (Transform_call)\n\n")
         btext, status = body_functions(raw, hdr)
@@ -1888,7 +1888,8 @@ def gen(ctx):
         ctx.notes.append(f"translator: Nstd/Generated/Sha256Tables.lean, Sha256U2.lean, Sha256Body.lean, Sha256BodyProofs.lean regenerated from the current sources (sha1 {msg})")
         ctx.cov["translated_bodies"] = {"Transform": "translated (it is the model)", "Transform -D_SHA256_UNROLL2": "translated",
                                         "Transform -D_SHA256_UNROLL": "translated", "configuration selected by the sources": LAST_STATUS.get("config"),
-                                        **{n: ("translated, proved equal to the model" if r is None else f"NOT translated this run, model function used instead: {r}")
+                                        **{n: (("translated, proved = RFC 2104 (and = the model) for every initial content of its local arrays" if n == "hmac" else "translated, proved equal to the model")
+                                               if r is None else f"NOT translated this run, model function used instead: {r}")
                                            for n, r in LAST_STATUS.items() if n != "config"}}
     return ok, msg
 
